@@ -105,6 +105,7 @@ func (ir *ifdReader) ResetReader(r io.Reader) {
 	ir.buffer.clear()
 	ir.reader = r
 	ir.readErr = nil
+	ir.po = 0
 }
 
 // streamError remembers the first error of the underlying stream, so that
